@@ -11,6 +11,7 @@ package xbus
 //@   lock Mutex level 20
 //@   guarded_by Mutex: closed sizeQ pipes recvQLen sendQLen recvExpire recvQ
 //@   immutable: closeQ
+//@   elem_invariant recvQ: !shared(elem)
 //@
 //@ func (*socket).SendMsg
 //@   loop 1 complete
